@@ -5,6 +5,7 @@ use crate::mem::{get_executable_memory_slice, memory_read_byte, memory_write_byt
 
 pub fn run_code_block(registers: &mut Registers, mem: *mut MemoryAreas) -> u8 {
   let mut status = cpu::STATUS_NORMAL;
+  let start = registers.ip;
   loop {
     match run_next_op(registers, mem) {
       Some((op_status, should_break)) => {
@@ -14,6 +15,12 @@ pub fn run_code_block(registers: &mut Registers, mem: *mut MemoryAreas) -> u8 {
         }
       },
       None => break,
+    }
+    // A block never extends past the 16 KiB ROM region it starts in, the same
+    // extent a translated block has; execution continues with a new block
+    let next = registers.ip;
+    if start < 0x8000 && (next ^ start) & !0x3fff != 0 {
+      break;
     }
     /*
     let index = registers.ip as usize;
